@@ -589,8 +589,16 @@ func (h *history) genUpdParams(authority int, valid bool) mmsg {
 				signers = append(signers, c.addrOf(h.anyAcct()).String())
 			}
 		}
+		dup := r.chance(1, 8) // one account listed twice: the list (and MinAccepts up to its length) is stored as submitted
+		if dup {
+			signers = append(signers, signers[r.intn(len(signers))])
+			n = len(signers)
+		}
 		p.EntSigners = strings.Join(signers, ",")
 		p.MinAccepts = uint64(1 + r.intn(n))
+		if dup && r.chance(1, 2) {
+			p.MinAccepts = uint64(n)
+		}
 		p.DecisionTimeLimit = uint64(10 + r.intn(200))
 		if !valid {
 			switch r.intn(6) {
